@@ -26,6 +26,11 @@ try:
     for n in names:
         meta = json.load(open('%s/seeded/%s/meta.json' % (ROOT, n)))
         pid = meta['property']
+        if meta.get('superseded_by'):
+            results[n] = dict(applied=False, superseded=True, property=pid, repo_head=head)
+            print(n, 'superseded', flush=True)
+            json.dump(results, open(resf, 'w'), indent=1, sort_keys=True)
+            continue
         checks = meta.get('checks', [pid])
         patch = '%s/seeded/%s/patch.diff' % (ROOT, n)
         subprocess.run(['git', '-C', clone, 'reset', '-q', '--hard', 'HEAD'])
